@@ -146,10 +146,20 @@ Proof.
     { apply (run_st_resolved cu forked DS rs_init evs1 s1 Est). right. exact Hreach. }
     rewrite (run_resolved_st cu false forked s1 D2 Hrs). reflexivity. }
   destruct Hres as (evs1 & r1 & Hrun & Hrun0).
+  (* the file source's first bundle (that of the cursor LIB) is at or below the bundle of S: the files reach the cursor block *)
+  assert (Hfe : file_end c merged_end = if t1 <=? merged_end then JStop else JNil).
+  { unfold file_end, first_bundle_ok. rewrite Hmode, Hcur. cbn [N.eqb Pos.eqb].
+    replace (j_stop c =? 0) with false by (symmetry; apply N.eqb_neq; exact HS). cbn [negb andb]. fold b t1 lib.
+    destruct (N.leb_spec t1 merged_end) as [Hle|Hgt]; cbn [andb]; [|reflexivity].
+    destruct Hreach as (x & Hx & _). fold lib b DS in Hx. unfold DS, file_delivery in Hx. apply filter_In in Hx as [_ Hx].
+    apply andb_true_iff in Hx as [Hx1 Hx2]. apply N.leb_le in Hx1. apply N.ltb_lt in Hx2. fold t1 in Hx2.
+    assert (Hb0 : b <> 0) by (intros E; unfold t1 in Hx2; rewrite E, N.mul_0_r in Hx2; lia).
+    pose proof (N.mul_div_le lib b Hb0) as Hdiv.
+    replace (lib / b * b <? merged_end) with true; [reflexivity|]. symmetry. apply N.ltb_lt. nia. }
   (* both runs *)
   assert (Hsim : sim c [] (stream_run (with_stop c 0) w ps merged_end merged forked)
                           (stream_run c w ps merged_end merged forked)).
-  { unfold stream_run. cbv zeta.
+  { unfold stream_run. cbv zeta. rewrite Hfe, (file_end_nostop (with_stop c 0) merged_end eq_refl).
     cbn [j_first j_start j_stop j_mode j_filter j_cursor j_bundle with_stop].
     fold (run_start c w). fold start. rewrite Hstart, Hmode, Hcur.
     replace (j_stop c =? 0) with false by (symmetry; apply N.eqb_neq; exact HS).
